@@ -259,6 +259,45 @@ func extractGrpcBroker(p *pkgs, f *facts) {
 		}
 	}
 	acceptLeaves = acceptLeaves && refs > 0
+	// GRPCClientMuxer.Listener / GRPCServerMuxer.Listener: a listener built by new…Listener(…) in the call itself is stored
+	// under the id, and the only `return` with a non-nil listener is the last statement (no early hand-out of an existing one)
+	replaces := true
+	for _, t := range []struct{ recv, ctor, field string }{{"GRPCClientMuxer", "newBlockedClientListener", "acceptListeners"}, {"GRPCServerMuxer", "newBlockedServerListener", "acceptChannels"}} {
+		fd := p.fn(t.recv, "Listener")
+		if fd == nil {
+			f.miss = append(f.miss, t.recv+".Listener")
+			replaces = false
+			continue
+		}
+		lnVar, stored, okRets, badRets := "", false, 0, 0
+		ast.Inspect(fd.Body, func(n ast.Node) bool {
+			switch v := n.(type) {
+			case *ast.AssignStmt:
+				if len(v.Lhs) == 1 && len(v.Rhs) == 1 {
+					if strings.HasPrefix(exprString(v.Rhs[0]), t.ctor+"(") {
+						lnVar = exprString(v.Lhs[0])
+					}
+					if strings.HasSuffix(exprString(v.Lhs[0]), "."+t.field+"[id]") && lnVar != "" && strings.HasPrefix(exprString(v.Rhs[0]), lnVar) {
+						stored = true
+					}
+				}
+			case *ast.ReturnStmt:
+				if len(v.Results) == 2 && exprString(v.Results[0]) != "nil" {
+					if exprString(v.Results[0]) == lnVar && stored {
+						okRets++
+					} else {
+						badRets++
+					}
+				}
+			}
+			return true
+		})
+		if !(stored && okRets == 1 && badRets == 0) {
+			replaces = false
+		}
+	}
+	f.lean = append(f.lean, fmt.Sprintf("def grpcMuxListener : GrpcMux.ListenerParams := ⟨%s⟩", leanBool(replaces)))
+	f.set("grpcMuxListener", map[string]interface{}{"listenerReplaces": replaces})
 	// both streamer constructors build `send` with make(chan *sendErr) — one argument, no capacity
 	unbuf, nCtor := true, 0
 	for _, ctor := range []string{"newGRPCBrokerServer", "newGRPCBrokerClient"} {
